@@ -145,3 +145,108 @@ func wfRangeReq(o *ObjectRangeRequest) bool {
 //@ ensures [C12]     init:   ret0 != nil && ret0.inner == inner && ret0.chunkRemain == 0 && !ret0.notFirstChunk
 //@ ensures           fresh:  fresh(ret0)
 //@ modifies nothing
+
+// ---- streaming: ReadAll, hashingReader (C01, C08, C12) ---------------------------
+
+//@ func ReadAll
+//@ props C08 C12 C01 C09
+//@ requires          nonneg:  size >= 0
+//@ requires          rdr:     r != nil
+//@ ensures [C08,C12] exact:   imp(err == nil, len(b) == size && rd_pos(r) == old(rd_pos(r)) + size)
+//@ ensures [C08]     nothing: imp(err != nil, b == nil)
+//@ ensures [C08]     fresh:   imp(err == nil && size > 0, fresh(b))
+//@ modifies rd_pos(r)
+
+//@ func newHashingReader
+//@ props C08 C01
+//@ ensures [C08]     digest:  imp(ret1 != nil, ret0 == nil && errcode(ret1) == ErrInvalidDigest)
+//@ ensures [C08]     ok:      imp(ret1 == nil, ret0 != nil && ret0.inner == inner && ret0.hash != nil && ret0.sum == nil &&
+//@                              imp(expectedMD5Base64 == "", ret0.expected == nil) &&
+//@                              imp(expectedMD5Base64 != "", len(ret0.expected) == 16))
+//@ ensures           fresh:   imp(ret0 != nil, fresh(ret0))
+//@ modifies nothing
+
+//@ func (*hashingReader).Read
+//@ props C08 C01 C09
+//@ requires          wf:      h != nil && h.inner != nil && h.hash != nil
+//@ ensures [C08,C09] n:       0 <= n && n <= len(p)
+//@ ensures [C08]     pos:     rd_pos(h.inner) == old(rd_pos(h.inner)) + n
+//@ ensures [C08]     eof:     imp(err == io.EOF, h.sum != nil && (h.expected == nil || bytes.Equal(h.sum, h.expected)))
+//@ ensures [C08]     bad:     imp(old(h.expected) != nil && err != nil && errcode(err) == ErrBadDigest, true)
+//@ refines io.Reader.Read n
+//@ modifies p[:], h.sum, rd_pos(h.inner)
+
+// ---- interfaces the handlers and the uploader call through ------------------------
+// The backend's own state is abstracted by the ghost counter store_gen: every
+// accepted mutation bumps it, a rejected call leaves it alone. Backends never
+// reach into the uploader's or the handler's private structures (package privacy).
+
+//@ ghost store_gen : Int
+//@ ghost put_count : Int
+//@ ghost put_bucket : Str
+//@ ghost put_key : Str
+//@ ghost put_meta : Int
+//@ ghost put_size : Int
+//@ ghost put_input : If
+
+//@ iface gofakes3.TimeSource.Now
+
+//@ iface gofakes3.Backend.PutObject
+//@ requires [C12,C08] size:   size >= 0
+//@ requires           input:  input != nil
+//@ modifies store_gen, put_count, put_bucket, put_key, put_meta, put_size, put_input, rd_pos(input)
+//@ ensures [C08]      reject: imp(ret1 != nil, store_gen == old(store_gen))
+//@ ensures            log:    put_count == old(put_count) + 1 && put_bucket == bucketName && put_key == key &&
+//@                              put_meta == meta && put_size == size && put_input == input
+
+// ---- multipart uploads (C06, C14) ---------------------------------------------------
+
+//@ pred uploaderInv(u) = u != nil && u.buckets != nil && u.timeSource != nil && u.uploadID != nil &&
+//@   allstr(b, imp(has(u.buckets, b), u.buckets[b] != nil && u.buckets[b].uploads != nil && u.buckets[b].objectIndex != nil &&
+//@     allstr(i, imp(has(u.buckets[b].uploads, i), u.buckets[b].uploads[i] != nil))))
+
+//@ func (*uploader).getUnlocked
+//@ props C06 C14 C09
+//@ requires          inv:    uploaderInv(u)
+//@ ensures [C06,C14] found:  imp(err == nil, has(u.buckets, bucket) && has(u.buckets[bucket].uploads, id) &&
+//@                             mu == u.buckets[bucket].uploads[id] && mu != nil && mu.Bucket == bucket && mu.Object == object)
+//@ ensures [C06,C14] absent: imp(err != nil, mu == nil && errcode(err) == ErrNoSuchUpload)
+//@ ensures [C06]     exact:  imp(has(u.buckets, bucket) && has(u.buckets[bucket].uploads, id) &&
+//@                             u.buckets[bucket].uploads[id].Bucket == bucket && u.buckets[bucket].uploads[id].Object == object, err == nil)
+//@ modifies nothing
+
+//@ func (CompleteMultipartUploadRequest).partIDs
+//@ props C06
+//@ loop 1 invariant  idx:    -1 <= rangeindex && rangeindex + 1 == len(inParts) && rangeindex < len(c.Parts)
+//@ loop 1 invariant  same:   all(k, 0, len(inParts), inParts[k] == c.Parts[k].PartNumber)
+//@ ensures [C06]     ids:    len(ret0) == len(c.Parts) && all(k, 0, len(ret0), ret0[k] == c.Parts[k].PartNumber)
+//@ modifies nothing
+
+//@ func (CompleteMultipartUploadRequest).partsAreSorted
+//@ props C06
+//@ ensures [C06]     sorted: ret0 == all(i, 0, len(c.Parts), all(j, i, len(c.Parts), c.Parts[i].PartNumber <= c.Parts[j].PartNumber))
+//@ modifies nothing
+
+//@ func (*uploader).UploadPart
+//@ props C06 C14 C08 C09
+//@ let M = u.buckets[bucket].uploads[id]
+//@ requires          inv:    uploaderInv(u)
+//@ requires          free:   u.mu == 0
+//@ requires          mfree:  allref(m, *multipartUpload, m.mu == 0)
+//@ requires          pn:     partNumber >= 1
+//@ requires          input:  input != nil
+//@ ensures [C08,C06] reject: imp(err != nil, unchanged())
+//@ ensures [C06,C14] stored: imp(err == nil, has(u.buckets, bucket) && has(u.buckets[bucket].uploads, id) &&
+//@                             partNumber < len(M.parts) && M.parts[partNumber] != nil &&
+//@                             M.parts[partNumber].PartNumber == partNumber && M.parts[partNumber].ETag == etag &&
+//@                             len(M.parts[partNumber].Body) == contentLength &&
+//@                             len(M.parts) == max(old(len(M.parts)), partNumber + 1))
+//@ ensures [C06,C14] others: imp(err == nil, all(j, 0, len(M.parts), imp(j != partNumber,
+//@                             M.parts[j] == ite(j < old(len(M.parts)), old(M.parts[j]), nil))))
+//@ ensures [C08]     limit:  imp(partNumber > MaxUploadPartNumber, err != nil)
+//@ ensures           locks:  u.mu == 0
+//@ ensures           inv:    uploaderInv(u)
+
+//@ func NewContentTime
+//@ props C09
+//@ pure
